@@ -158,7 +158,8 @@ mod gf255 {
         fn k_decode_ct32() {
             // every 32-byte string
             let buf: [u8; 32] = kani::any();
-            let (r, cc) = GF255::<MQ>::decode_ct(&buf);
+            let (mut r, _) = any_el::<MQ>();
+            let cc = r.set_decode_ct(&buf);
             let v = R::from_le_bytes(&buf);
             if R::ge(v, q(MQ)) {
                 assert!(cc == 0 && R::is_zero(w(&r)));
@@ -167,6 +168,37 @@ mod gf255 {
                 // encode after successful decode reproduces the input bytes
                 let e = r.encode32();
                 let mut i = 0; while i < 32 { assert!(e[i] == buf[i]); i += 1; }
+            }
+        }
+        #[kani::proof]
+        #[kani::unwind(50)]
+        fn k_lookup16() {
+            // every table content, every u32 index
+            let mut t3 = [GF255::<MQ>::ZERO; 48];
+            let mut w3 = [[0u64; 5]; 48];
+            let mut i = 0; while i < 48 { let (e, we) = any_el::<MQ>(); t3[i] = e; w3[i] = we; i += 1; }
+            let j: u32 = kani::any();
+            let r = GF255::<MQ>::lookup16_x3(&t3, j);
+            let mut k = 0;
+            while k < 3 {
+                let want = if j < 16 { w3[3 * (j as usize) + k] } else { [0u64; 5] };
+                assert!(R::eq(w(&r[k]), want));
+                k += 1;
+            }
+        }
+        #[kani::proof]
+        #[kani::unwind(66)]
+        fn k_lookup16_x4() {
+            let mut t4 = [GF255::<MQ>::ZERO; 64];
+            let mut w4 = [[0u64; 5]; 64];
+            let mut i = 0; while i < 64 { let (e, we) = any_el::<MQ>(); t4[i] = e; w4[i] = we; i += 1; }
+            let j: u32 = kani::any();
+            let r = GF255::<MQ>::lookup16_x4(&t4, j);
+            let mut k = 0;
+            while k < 4 {
+                let want = if j < 16 { w4[4 * (j as usize) + k] } else { [0u64; 5] };
+                assert!(R::eq(w(&r[k]), want));
+                k += 1;
             }
         }
         #[kani::proof]
@@ -179,11 +211,106 @@ mod gf255 {
             let (r, cc) = GF255::<MQ>::decode_ct(&buf[..n]);
             assert!(cc == 0 && R::is_zero(w(&r)));
             assert!(GF255::<MQ>::decode(&buf[..n]).is_none());
+            // in-place variant on an arbitrary previous value
+            let (mut x, _) = any_el::<MQ>();
+            let cc2 = x.set_decode_ct(&buf[..n]);
+            assert!(cc2 == 0 && R::is_zero(w(&x)));
         }
     } } }
     harnesses!(gf25519, 19);
     harnesses!(gf255e, 18651);
     harnesses!(gf255s, 3957);
+}
+
+mod recode {
+    //! Signed-digit recoders taking a machine integer: every input value is
+    //! covered (full domain), loops have a constant bound.
+    use crrl::jq255e::Point as PE;
+    use crrl::jq255s::Point as PS;
+    use crrl::ed25519::Point as P25;
+    use crrl::secp256k1::Point as PK;
+    use crrl::p256::Point as P2;
+
+    /// y (192-bit two's complement) minus a small signed digit
+    fn sub_digit(y: [u64; 3], d: i8) -> [u64; 3] {
+        let dd = d as i64 as u64; // sign-extended
+        let ext = if d < 0 { u64::MAX } else { 0 };
+        let (r0, b0) = y[0].overflowing_sub(dd);
+        let (t1, b1a) = y[1].overflowing_sub(ext);
+        let (r1, b1b) = t1.overflowing_sub(b0 as u64);
+        let r2 = y[2].wrapping_sub(ext).wrapping_sub((b1a | b1b) as u64);
+        [r0, r1, r2]
+    }
+    fn sar(y: [u64; 3], s: u32) -> [u64; 3] {
+        [(y[0] >> s) | (y[1] << (64 - s)), (y[1] >> s) | (y[2] << (64 - s)), ((y[2] as i64) >> s) as u64]
+    }
+    /// sum_i sd[i] * 2^(w*i) == n  checked by peeling digits from the bottom:
+    /// y_0 = n, y_{i+1} = (y_i - sd[i]) / 2^w exactly, y_end == 0.
+    fn digits_represent(sd: &[i8], w: u32, n: [u64; 3]) -> bool {
+        let mut y = n;
+        let mut ok = true;
+        let mut i = 0;
+        while i < sd.len() {
+            y = sub_digit(y, sd[i]);
+            ok &= (y[0] & ((1u64 << w) - 1)) == 0;
+            y = sar(y, w);
+            i += 1;
+        }
+        ok && y[0] == 0 && y[1] == 0 && y[2] == 0
+    }
+    fn naf_digits_ok(sd: &[i8]) -> bool {
+        let mut ok = true; let mut i = 0;
+        while i < sd.len() { let d = sd[i]; ok &= d == 0 || ((d & 1) != 0 && d >= -15 && d <= 15); i += 1; }
+        ok
+    }
+    fn w5_digits_ok(sd: &[i8]) -> bool {
+        let mut ok = true; let mut i = 0;
+        while i < sd.len() { let d = sd[i]; ok &= d >= -15 && d <= 16; i += 1; }
+        ok
+    }
+    fn n128(n: u128) -> [u64; 3] { [n as u64, (n >> 64) as u64, 0] }
+
+    macro_rules! naf128 { ($name:ident, $P:ty) => {
+        #[kani::proof]
+        #[kani::unwind(132)]
+        fn $name() {
+            let n: u128 = kani::any();
+            let sd = <$P>::verif_recode_u128_NAF(n);
+            assert!(naf_digits_ok(&sd));
+            assert!(digits_represent(&sd, 1, n128(n)));
+        }
+    } }
+    naf128!(k_jq255e_recode_u128_naf, PE);
+    naf128!(k_jq255s_recode_u128_naf, PS);
+    naf128!(k_ed25519_recode_u128_naf, P25);
+    naf128!(k_secp256k1_recode_u128_naf, PK);
+
+    #[kani::proof]
+    #[kani::unwind(132)]
+    fn k_p256_recode_u129_naf() {
+        let nl: u128 = kani::any();
+        let nh: u32 = kani::any();
+        kani::assume(nh <= 1);
+        // documented domain: n < 2^129 - 16
+        kani::assume(nh == 0 || nl < u128::MAX - 15);
+        let sd = P2::verif_recode_u129_NAF(nh, nl);
+        assert!(naf_digits_ok(&sd));
+        assert!(digits_represent(&sd, 1, [nl as u64, (nl >> 64) as u64, nh as u64]));
+    }
+
+    macro_rules! w5_128 { ($name:ident, $P:ty) => {
+        #[kani::proof]
+        #[kani::unwind(28)]
+        fn $name() {
+            let n: u128 = kani::any();
+            let sd = <$P>::verif_recode_u128(n);
+            assert!(w5_digits_ok(&sd));
+            assert!(sd[25] >= 0);
+            assert!(digits_represent(&sd, 5, n128(n)));
+        }
+    } }
+    w5_128!(k_jq255e_recode_u128, PE);
+    w5_128!(k_secp256k1_recode_u128, PK);
 }
 
 #[kani::proof]
